@@ -11,3 +11,4 @@ import Hyeong.Props.C14
 #print axioms HyE.C14.utf8_roundtrip
 #print axioms HyE.C14.utf8_input_is_its_text
 #print axioms HyE.C14.cat_bytes
+#print axioms HyE.C14.cat_valid_utf8
